@@ -70,6 +70,91 @@ def run_variant(variant, expr, env):
     return evaluate_kw(expr, **env)
 
 
+# {{{ kinds of environment objects
+
+class _GetItemOnly:
+    """the least a context has to be: something with __getitem__"""
+    def __init__(self, d):
+        self.d = d
+
+    def __getitem__(self, k):
+        return self.d[k]
+
+
+def _mk_env(kind, bindings):
+    """-> (context object, function that binds a name in it afterwards)"""
+    import collections
+    import types
+    if kind == "dict":
+        d = dict(bindings)
+        return d, d.__setitem__
+    if kind == "defaultdict-7":
+        d = collections.defaultdict(lambda: 7, bindings)
+        return d, d.__setitem__
+    if kind == "chainmap":
+        inner = dict(bindings)
+        return collections.ChainMap({}, inner), inner.__setitem__
+    if kind == "mappingproxy":
+        inner = dict(bindings)
+        return types.MappingProxyType(inner), inner.__setitem__
+    if kind == "userdict":
+        d = collections.UserDict(bindings)
+        return d, d.__setitem__
+    if kind == "getitem-only":
+        inner = dict(bindings)
+        return _GetItemOnly(inner), inner.__setitem__
+    raise ValueError(kind)
+
+
+ENV_KINDS = ("dict", "defaultdict-7", "chainmap", "mappingproxy", "userdict", "getitem-only")
+
+
+def envkind_failure(kind, when, variant, spec):
+    """The environment is the caller's mapping object: look-ups go to it when the expression is
+    evaluated.  when = before: all names bound before the mapper is made; after: the mapping is
+    EMPTY when the mapper is made and filled before the call; between: x bound before, the rest
+    after, and x rebound to another value before a second call."""
+    from pymbolic.mapper.evaluator import CachedEvaluationMapper, EvaluationMapper, evaluate
+    full = dict(base_env())
+    full.update(x=3, y=-2)
+    first = {} if when == "after" else ({"x": 3} if when == "between" else dict(full))
+    ctx, bind = _mk_env(kind, first)
+    expr = build(spec)
+    mk = {"plain": EvaluationMapper, "cached": CachedEvaluationMapper}.get(variant)
+    mapper = mk(ctx) if mk else None
+    for k, v in full.items():
+        if k not in first:
+            bind(k, v)
+    runs = [dict(full)]
+    if when == "between":
+        runs.append(dict(full, x=5))
+    for n, now in enumerate(runs):
+        if n:
+            bind("x", 5)
+            if mk:
+                mapper = mk(ctx)        # an evaluator instance keeps CSE (and memo) values: it is
+                                        # bound to one state of the context
+        renv = dict(now)
+        if kind == "defaultdict-7":
+            renv = __import__("collections").defaultdict(lambda: 7, now)
+        ref = refsem.outcome(refsem.evaluate, spec, renv)
+        if mapper is not None:
+            got = norm_impl_outcome(refsem.outcome(mapper, expr))
+        else:
+            got = norm_impl_outcome(refsem.outcome(evaluate, expr, ctx))
+        if ref[0] == "err" and ref[1] == "UnknownVariable":
+            same = got[0] == "err" and got[1] == "UnknownVariable"
+        else:
+            same = refsem.outcomes_equal(ref, got)
+        if not same:
+            return ("environment", f"context kind {kind}, bound {when} the mapper was made, "
+                    f"call {n + 1}: expected {refsem.show_outcome(ref)} got "
+                    f"{refsem.show_outcome(got)}")
+    return None
+
+# }}}
+
+
 def norm_impl_outcome(o):
     if o[0] == "err" and o[1] == "UnknownVariableError":
         return ("err", "UnknownVariable", o[2])
@@ -122,7 +207,9 @@ class C02(Check):
             "4 evaluator entry points; plus one-variable-removed environments, short-circuit "
             "probes with a raising callee, and non-commutative (2x2 matrix) operands for n-ary "
             "sums/products, and sibling subtrees that differ only in hash-colliding constants (-1 / -2, "
-            "0 / 2**61-1). A case is non-trivial when the reference semantics yields a value "
+            "0 / 2**61-1); 6 kinds of context objects (dict, defaultdict, ChainMap, mapping proxy, "
+            "UserDict, __getitem__-only) bound before / after / around the construction of the "
+            "evaluator x 3 entry points x 7 trees. A case is non-trivial when the reference semantics yields a value "
             "(not an error) in at least one environment; distinct = distinct trees.")
     assumptions = [
         "reference semantics vf/refsem.py is the intended denotation (one plain Python operator "
@@ -147,6 +234,7 @@ class C02(Check):
             ("noncomm", self.gen_noncomm),
             ("typed-consts", self.gen_typed_consts),
             ("hash-twins", lambda: (("d2", s) for s in gen.twin_trees())),
+            ("environment-kinds", self.gen_envkinds),
         ]
         if tier == "thorough":
             fams.append(("nest3", lambda: (("n3", s) for _, s in
@@ -154,6 +242,18 @@ class C02(Check):
         return fams
 
     # -- extra families ---------------------------------------------------------------------
+    ENV_TREES = (V("x"), ("Sum", T(V("x"), V("y"))), ("Product", T(C(2), V("y"))),
+                 ("Call", V("f"), T(V("x"))), ("Sum", T(V("x"), V("zz"))),
+                 ("CommonSubexpression", ("Sum", T(V("x"), V("y"))), ("none",),
+                  S("pymbolic_eval")), C(3))
+
+    def gen_envkinds(self):
+        for ek in ENV_KINDS:
+            for when in ("before", "after", "between"):
+                for variant in ("plain", "cached", "evaluate"):
+                    for ti in range(len(self.ENV_TREES)):
+                        yield ("envkind", ek, when, variant, ti)
+
     def gen_missing(self):
         for _, s in gen.nest2(EVAL_CTORS, EVAL_CTORS):
             for v in variables_of(s):
@@ -198,6 +298,14 @@ class C02(Check):
     # -- the check ----------------------------------------------------------------------------
     def check_item(self, family, item, tier):
         r = Res()
+        if item[0] == "envkind":
+            r.evals += 1
+            r.keys.append(item)
+            f = envkind_failure(*item[1:4], self.ENV_TREES[item[4]])
+            if f:
+                r.fail(f[0], f"{f[0]}|{item[1]}|{item[2]}|{item[3]}|{show(self.ENV_TREES[item[4]])}",
+                       f[1])
+            return r
         mode, spec = item[0], item[1]
         removed = item[2] if mode == "missing" else None
         if unhashable_below_node(spec):
